@@ -210,6 +210,14 @@ func c11Run(c *core.Ctx, idx int) {
 	for i := range contents {
 		contents[i] = c11Content(c)
 	}
+	if nl >= 2 && c.Rng.Intn(4) == 0 {
+		// A list that yields no rule at all, anywhere among the others (with
+		// IgnoreCosmetic a list of cosmetic rules is such a list, too).
+		contents[c.Rng.Intn(nl)] = []string{"", "! comments only\n# nothing else\n", "||rejected^$nosuchmodifier\n\n", "\n\n", "##.only-cosmetic\nexample.org##.rules\n"}[c.Rng.Intn(5)]
+		if nl >= 3 && c.Rng.Intn(2) == 0 {
+			contents[c.Rng.Intn(nl)] = ""
+		}
+	}
 	if nl >= 2 && c.Rng.Intn(3) == 0 {
 		// Same offsets, different content: same line lengths, other rules.
 		contents[1] = strings.NewReplacer("example", "exbmple", "generic", "generjc", "specific", "specifjc").Replace(contents[0])
